@@ -1,4 +1,5 @@
 import L21.Proofs.RawProtoRT
+import L21.Proofs.RawProtoBack
 /-
 C14 — a whole layout through the protobuf schema and back.
 -/
@@ -22,6 +23,33 @@ theorem c14_layout_roundtrip (known : List Bytes) (l : Layout)
   refine ⟨F (groupElems l.elems []), ?_, by simpa [F] using h2⟩
   simp only [importLayout, exportLayout, importInsts_export known l.insts hi, importElems_ok _ h1, importAnnots_export, F]
 
+
+/-- **the converse trip, one layout**: a message layout in the form the exporter writes (local
+    references to known cells with origins, groups with distinct (layer, purpose) keys, none empty,
+    rectangles with a corner and non-negative sizes, non-negative path widths, annotations with a
+    location) converts to raw and back to exactly the same message -/
+theorem c14_proto_layout_roundtrip (known : List Bytes) (p : PLayout)
+    (hi : p.insts.all (pinstOk known) = true) (hg : p.shapes.all groupCanon = true)
+    (hk : (p.shapes.map (·.layer)).Nodup) (ha : p.annotations.all (fun a => a.2.isSome) = true) :
+    ∃ l, importLayout known p = .ok l ∧ exportLayout l = p := by
+  obtain ⟨is, h1, h1'⟩ := importInsts_back known p.insts hi
+  obtain ⟨as, h3, h3'⟩ := importAnnots_back p.annotations ha
+  have hok : p.shapes.all groupOk = true := by
+    rw [List.all_eq_true] at hg ⊢; intro g hgm; exact groupCanon_ok g (hg g hgm)
+  refine ⟨⟨p.name, is, F p.shapes, as⟩, by simp [importLayout, h1, importElems_ok _ hok, h3, F], ?_⟩
+  simp only [exportLayout, h1', h3']
+  have := regroup p.shapes [] hg (by simpa using hk)
+  simp only [List.nil_append] at this
+  rw [this]
+
+
+/-- non-vacuity of the converse: a two-group message layout is its own round trip -/
+example : ∃ l, importLayout [[66]] ⟨[76], [⟨[105], .localRef [66], some ⟨3, 4⟩, true, 90⟩],
+      [⟨some (1, 0), [⟨[110], some ⟨0, 0⟩, 5, 5⟩], [⟨[], [⟨0, 0⟩, ⟨3, 0⟩, ⟨0, 3⟩]⟩], []⟩, ⟨some (2, 0), [], [], [⟨[], 2, [⟨0, 0⟩, ⟨4, 0⟩]⟩]⟩],
+      [([116], some ⟨1, 1⟩)]⟩ = .ok l ∧ exportLayout l = ⟨[76], [⟨[105], .localRef [66], some ⟨3, 4⟩, true, 90⟩],
+      [⟨some (1, 0), [⟨[110], some ⟨0, 0⟩, 5, 5⟩], [⟨[], [⟨0, 0⟩, ⟨3, 0⟩, ⟨0, 3⟩]⟩], []⟩, ⟨some (2, 0), [], [], [⟨[], 2, [⟨0, 0⟩, ⟨4, 0⟩]⟩]⟩],
+      [([116], some ⟨1, 1⟩)]⟩ :=
+  c14_proto_layout_roundtrip _ _ (by decide) (by decide) (by decide) (by decide)
 
 /-- non-vacuity: two layers, three kinds, a repeated key, a named and an unnamed shape -/
 example : importElems (groupElems [⟨some [110], 1, 0, .rect ⟨5, 5⟩ ⟨0, 0⟩⟩, ⟨none, 2, 0, .path [⟨0, 0⟩, ⟨4, 0⟩] 2⟩,
